@@ -31,6 +31,9 @@ type c10Case struct {
 	Cut     int      `json:"cut"`      // -1 whole body, else truncate the AUTH_SYS body to Cut bytes
 	Count   int64    `json:"count"`    // -1 = len(Aux), else the declared gid count
 	Shared  bool     `json:"shared"`   // pass a pre-parsed credential whose aux slice the caller keeps
+	// Conn: the end-to-end part runs over the server's record-marking connection loop, on a connection that other
+	// users of the same client machine (uid 0 at MNT, uid 5 for the setup) have used before this credential
+	Conn bool `json:"conn,omitempty"`
 }
 
 var c10IDs = []uint32{0, 1, 1000, 65533, 65534, 65535, 1 << 31, 1<<32 - 1}
@@ -51,6 +54,7 @@ func genC10(t *rapid.T) c10Case {
 		Cut:     -1,
 		Count:   -1,
 		Shared:  rapid.Bool().Draw(t, "shared"),
+		Conn:    rapid.IntRange(0, 2).Draw(t, "conn") == 0,
 	}
 	n := pick(t, "naux", 0, 0, 1, 2, 3, 15, 16)
 	for i := 0; i < n; i++ {
@@ -166,6 +170,9 @@ func runC10(tb stat.TB, c c10Case) {
 				return
 			}
 		}
+		if c.Conn && c10ConnDenied(tb, c, what) {
+			return
+		}
 	default:
 		if !c.refDecodable() {
 			nontrivial = true
@@ -173,6 +180,9 @@ func runC10(tb stat.TB, c c10Case) {
 				if stat.Violate(tb, id, check, "undecodable-authsys-accepted", c, "%s: undecodable AUTH_SYS body accepted as %d/%d", what, res.UID, res.GID) {
 					return
 				}
+			}
+			if c.Conn && c10ConnDenied(tb, c, what) {
+				return
 			}
 			break
 		}
@@ -223,6 +233,7 @@ func c10EndToEnd(tb stat.TB, c c10Case, what string, wu, wg uint32, waux []uint3
 	v.SeedFile("/g", 0070, 0, 0, []byte("x"))
 	s := newSession(tb, v, absnfs.ExportOptions{Squash: c.Squash, AttrCacheTimeout: 1, AttrCacheSize: 2})
 	defer s.close()
+	s.e.ViaConn = c.Conn
 	abandoned := guard(func() {
 		root := s.mount()
 		lr := s.nfsAs(drv.Client{IP: "127.0.0.1", Port: 700, Cred: nfsx.AuthSys(1, "h", 5, 5, nil)}, nfsx.ProcLookup, nfsx.ArgsDirop(root, "g"))
@@ -236,12 +247,19 @@ func c10EndToEnd(tb stat.TB, c c10Case, what string, wu, wg uint32, waux []uint3
 			cl.Cred = nfsx.AuthNone()
 		}
 		xid := s.e.NextXid()
-		wire, actx, err := s.e.CallCtx(cl, nfsx.Call(xid, nfsx.ProgNFS, 3, nfsx.ProcAccess, cl.Cred, nfsx.AuthNone(), nfsx.ArgsAccess(lr.Fh, 0x3f)))
+		var wire []byte
+		var actx *absnfs.AuthContext
+		var err error
+		if c.Conn {
+			wire, err = s.e.CallWire(cl, nfsx.Call(xid, nfsx.ProgNFS, 3, nfsx.ProcAccess, cl.Cred, nfsx.AuthNone(), nfsx.ArgsAccess(lr.Fh, 0x3f)))
+		} else {
+			wire, actx, err = s.e.CallCtx(cl, nfsx.Call(xid, nfsx.ProgNFS, 3, nfsx.ProcAccess, cl.Cred, nfsx.AuthNone(), nfsx.ArgsAccess(lr.Fh, 0x3f)))
+		}
 		if err != nil {
 			stat.Discard(false)
 			panic(abandon{err.Error()})
 		}
-		if actx.EffectiveUID != wu || actx.EffectiveGID != wg {
+		if actx != nil && (actx.EffectiveUID != wu || actx.EffectiveGID != wg) {
 			stop = stat.Violate(tb, id, check, "handlecall-effective-ids-wrong", c, "%s: AuthContext effective ids %d/%d after HandleCall, reference %d/%d", what, actx.EffectiveUID, actx.EffectiveGID, wu, wg)
 			if stop {
 				return
@@ -269,11 +287,45 @@ func c10EndToEnd(tb stat.TB, c c10Case, what string, wu, wg uint32, waux []uint3
 		case inGroup:
 			want = nfsx.AccessRead | nfsx.AccessModify | nfsx.AccessExtend | nfsx.AccessExecute
 		}
-		if res.Access != want {
+		if res.Access != want && c.Conn {
+			stop = stat.Violate(tb, id, check, "request-over-connection-runs-under-wrong-identity", c, "%s, sent on a connection other users (uid 0, uid 5) used before: ACCESS on a 0/0 mode 0070 file granted %#x, reference identity (%d/%d aux %v) gives %#x", what, res.Access, wu, wg, waux, want)
+		} else if res.Access != want {
 			stop = stat.Violate(tb, id, check, "access-uses-unsquashed-aux-gids", c, "%s: ACCESS on a 0/0 mode 0070 file granted %#x, reference identity (%d/%d aux %v) gives %#x", what, res.Access, wu, wg, waux, want)
 		}
 	})
 	_ = abandoned
+	return stop
+}
+
+// c10ConnDenied: a credential the server must deny is sent over a connection that well-formed AUTH_SYS requests of
+// other users have used before; the call may not be executed (no MSG_ACCEPTED / SUCCESS reply).
+func c10ConnDenied(tb stat.TB, c c10Case, what string) (stop bool) {
+	const id, check = "C10", "TestC10"
+	lm := strings.ToLower(c.Squash)
+	if !(lm == "" || lm == "none" || lm == "root" || lm == "all") {
+		return false
+	}
+	v := vfs.New()
+	v.SeedFile("/g", 0070, 0, 0, []byte("x"))
+	s := newSession(tb, v, absnfs.ExportOptions{Squash: c.Squash, AttrCacheTimeout: 1, AttrCacheSize: 2})
+	defer s.close()
+	s.e.ViaConn = true
+	guard(func() {
+		root := s.mount()
+		lr := s.nfsAs(drv.Client{IP: "127.0.0.1", Port: 700, Cred: nfsx.AuthSys(1, "h", 5, 5, nil)}, nfsx.ProcLookup, nfsx.ArgsDirop(root, "g"))
+		if lr.Status != nfsx.OK {
+			tb.Fatalf("harness: lookup g: %s", statusName(lr.Status))
+		}
+		cl := drv.Client{IP: "127.0.0.1", Port: 700, Cred: nfsx.Auth{Flavor: c.Flavor, Body: c.body()}}
+		xid := s.e.NextXid()
+		wire, err := s.e.CallWire(cl, nfsx.Call(xid, nfsx.ProgNFS, 3, nfsx.ProcAccess, cl.Cred, nfsx.AuthNone(), nfsx.ArgsAccess(lr.Fh, 0x3f)))
+		if err != nil {
+			return // no reply / connection closed: not executed
+		}
+		if rp, perr := nfsx.ParseReply(wire); perr == nil && rp.Stat == nfsx.MsgAccepted && rp.AcceptStat == nfsx.AcceptSuccess {
+			stop = stat.Violate(tb, id, check, "deniable-credential-executed-over-connection", c, "%s, sent on a connection other users used before: the call was accepted and executed", what)
+		}
+	})
 	return stop
 }
 
